@@ -382,6 +382,19 @@ func genStrings(r *common.Rand) {
 			resolveCase(b[0], b[1], ref)
 		}
 	}
+	// small scope, exhaustively: every reference over a few pieces up to a length
+	alpha := []string{"/", ".", "?", ":", "a", "%", "h", "#", "=", "&"}
+	var rec func(prefix string, depth int)
+	rec = func(prefix string, depth int) {
+		resolveCase("/v2/r/tags/list", "n=2", prefix)
+		if depth == 0 {
+			return
+		}
+		for _, a := range alpha {
+			rec(prefix+a, depth-1)
+		}
+	}
+	rec("", run.Scale(3, 5))
 	raws := []string{"", "n=1", "last=a&n=5", "x=1&n=3&y=2&n=4", "tok=a;b&n=1", "t=%zz&last=q", "%6e=7&x", "&&a=1&&", "n", "n=", "=v", "a=b=c", "la%73t=z&k;1=v", "u=100%&n=2", "last=a+b&LAST=c"}
 	vals := []string{"", "3", "a b", "a/b?c", "ü&=", "%41", "+", "x;y", "~._-"}
 	for _, raw := range raws {
